@@ -212,10 +212,15 @@ class DeckMemoryManager(MemoryElement):
             raise Exception('Query ongoing')
 
         self._error = None
+        previous_deck_memories = self.deck_memories
         self.deck_memories = {}
         self._query_complete_cb = query_complete_cb
         self._query_failed_cb = query_failed_cb
-        self.mem_handler.read(self, self.INFO_SECTION_ADDRESS, self.SIZE_OF_INFO_SECTION)
+        if not self.mem_handler.read(self, self.INFO_SECTION_ADDRESS, self.SIZE_OF_INFO_SECTION):
+            # Only one read at a time per memory, it was not started
+            self.deck_memories = previous_deck_memories
+            self._clear_query_cb()
+            raise Exception('Read operation ongoing')
 
     def _read(self, base_address, address, length, read_complete_cb, read_failed_cb):
         """Called from deck memory to read data"""
@@ -227,7 +232,10 @@ class DeckMemoryManager(MemoryElement):
         self._read_failed_cb = read_failed_cb
 
         mapped_address = address + self._read_base_address
-        self.mem_handler.read(self, mapped_address, length)
+        if not self.mem_handler.read(self, mapped_address, length):
+            # Only one read at a time per memory (a query may be running), it was not started
+            self._clear_read_cb()
+            raise Exception('Read operation ongoing')
 
     def _new_data(self, mem, addr, data):
         """Callback when new memory data has been fetched"""
